@@ -198,5 +198,6 @@ def run_task(task):
                       case)
     acc.sample(dict(case, alpha=alpha, e=evals.tolist()))
 
-  bfs(acc, s0, r0, names, task["depth"], step, ref_step, check, canon)
+  bfs(acc, s0, r0, names, task["depth"], step, ref_step, check, canon,
+      task=task)
   return acc.result()
